@@ -31,7 +31,7 @@ Theorem C15_unblock_waitpoints : (forall s, inv s -> closedChan s = true ->
   /\ (pI s = LRun -> exists s', step TI s = Some s' /\ pI s' = LExited)
   /\ (pI s = LRecvSpace -> exists s', step TI s = Some s' /\ pI s' = LRun)
   /\ (pO s = LRun -> exists s', step TO s = Some s' /\ pO s' = LExited)
-  /\ (pO s = LConnWrite -> net_ok s = true -> exists s', step TO s = Some s' /\ pO s' = LRun)
+  /\ (pO s = LConnWrite -> net_ok s = true -> exists s', step TO s = Some s' /\ (pO s' = LRun \/ pO s' = LErr (keepLock s) CIdle))
   /\ (pE s = EDeliver -> exists s', step TE s = Some s' /\ pE s' = ERun))%nat.
 Proof. exact unblock_waitpoints_all. Qed.
 Print Assumptions C15_unblock_waitpoints.
@@ -62,7 +62,7 @@ Proof. exact session_close_can_block. Qed.
 Print Assumptions C15_session_close_blocks_refuted.
 
 Theorem C15_underlay_close_releases : (forall s, run (init true true) stall_trace = Some s ->
-  exists s', run s [ACallUnderlayClose; TO; TC1; TC1; TC1; TO; TI; TU; TU; TU] = Some s'
+  exists s', run s [ACallUnderlayClose; TO; TO; TO; TC1; TC1; TC1; TO; TI; TU; TU; TU] = Some s'
     /\ closedChan s' = true /\ pC1 s' = CRet /\ pO s' = LExited /\ pI s' = LExited /\ pU s' = URet /\ udone s' = true /\ nclosed s' = 1)%nat.
 Proof. exact underlay_close_releases. Qed.
 Print Assumptions C15_underlay_close_releases.
@@ -71,6 +71,35 @@ Theorem C15_event_loop_rearms : (exists s, run (init true true) [TE; ACallUnderl
     /\ pE s = ERead /\ connDL s = true /\ closeRequested s = true)%nat.
 Proof. exact event_loop_can_rearm. Qed.
 Print Assumptions C15_event_loop_rearms.
+
+Theorem C15_output_error_close_no_self_deadlock : (forall s,
+  inv s -> keepLock s = false -> (connDL s = true \/ netBroken s = true) ->
+  closeRequested s = true -> closedChan s = false ->
+  exists l s', In l [TC1; TC2; TO] /\ step l s = Some s' /\ closing_measure s' < closing_measure s)%nat.
+Proof. exact output_error_close_progress. Qed.
+Print Assumptions C15_output_error_close_no_self_deadlock.
+
+Theorem C15_output_loop_error_path_not_stuck : (forall s h c,
+  inv s -> keepLock s = false -> (connDL s = true \/ netBroken s = true) -> pO s = LErr h c ->
+  h = false /\ exists s', step TO s = Some s' /\ mO (pO s') < mO (pO s) /\ mO (pO s) <= 7 + (match c with CGrace n => n + 1 | _ => 0 end))%nat.
+Proof. exact output_loop_error_path_not_stuck. Qed.
+Print Assumptions C15_output_loop_error_path_not_stuck.
+
+Theorem C15_output_error_close_keep_lock_refuted : (exists s, run (init_v true true true) self_deadlock_trace = Some s
+    /\ pO s = LErr true COLock /\ closeRequested s = true /\ closedChan s = false /\ outputErr s = true
+    /\ pR s = RWait false /\ pC1 s = CRet /\ pU s = UWg
+    /\ step TO s = None /\ step TC1 s = None /\ step TC2 s = None /\ step TR s = None /\ step TU s = None /\ step TI s <> None)%nat.
+Proof. exact output_error_close_keep_lock_deadlocks. Qed.
+Print Assumptions C15_output_error_close_keep_lock_refuted.
+
+Theorem C15_output_error_close_code_completes : (exists s, run (init true true) (self_deadlock_trace ++ [TO; TO; TO; TO; TO; TI; TR; TU]) = Some s
+    /\ closedChan s = true /\ nclosed s = 1 /\ pO s = LExited /\ pI s = LExited /\ pR s = RRet EOF /\ pU s = URet /\ udone s = true)%nat.
+Proof. exact output_error_close_code_completes. Qed.
+Print Assumptions C15_output_error_close_code_completes.
+
+Theorem C15_lock_discipline_of_the_code : (forall s, reachable s -> keepLock s = false)%nat.
+Proof. exact reachable_keepLock. Qed.
+Print Assumptions C15_lock_discipline_of_the_code.
 
 Theorem C15_deadline_refuted : (forall cl, ~ persists_read cl).
 Proof. exact read_deadline_refuted. Qed.
